@@ -12,7 +12,7 @@ package util
 //@   ensures range [C09,C14]: err == nil ==> result < 9223372036854775808
 //@   ensures nonzero [C02]: err == nil && zeroLenAsEOF ==> result > 0
 //@   ensures over_limit [C09]: verr == nil && v > maxReadBytes && !(v == 0 && zeroLenAsEOF) ==> err == ErrSectionTooLarge
-//@   ensures at_limit [C09]: verr == nil && v <= maxReadBytes && !(v == 0 && zeroLenAsEOF) ==> err == nil
+//@   ensures at_limit [C06,C09,C12,C13]: verr == nil && v <= maxReadBytes && !(v == 0 && zeroLenAsEOF) ==> err == nil
 //@   ensures eof_clean [C02]: err == io.EOF ==> pos(r) == old(pos(r)) || (zeroLenAsEOF && verr == nil && v == 0 && pos(r) == old(pos(r)) + 1)
 //@   ensures zero_on_error [C02]: err != nil ==> result == 0
 //@   ensures monotone [C14]: pos(r) >= old(pos(r))
@@ -30,7 +30,7 @@ package util
 //@   modifies pos(r)
 //@   let data, derr := call[LdRead#0]
 //@   let n, c, cerr := call[cid.CidFromBytes#0]
-//@   ensures split [C01,C14]: err == nil ==> bytelen(result0) + len(result1) == len(data) && bytelen(result0) == n
+//@   ensures split [C01,C02,C14]: err == nil ==> bytelen(result0) + len(result1) == len(data) && bytelen(result0) == n
 //@   ensures consumed [C01,C14]: err == nil ==> pos(r) == old(pos(r)) + vsize(len(data)) + len(data)
 //@   ensures eof_clean [C02]: err == io.EOF ==> pos(r) == old(pos(r)) || (zeroLenAsEOF && pos(r) == old(pos(r)) + 1)
 
